@@ -30,7 +30,7 @@ BCJ_IDS = sorted(L.BCJ)
 KNOWN_IDS = [L.LZMA1, L.LZMA1EXT, L.LZMA2, L.DELTA] + BCJ_IDS
 COMPRESSED_SIZE_MAX = (VLI_MAX - 1024 - 64) & ~3
 
-ENCODER_OPS = ("vlienc", "shenc", "sfenc", "propenc", "ffenc", "bhenc", "bhenc2", "idxenc", "idxgen", "bound")
+ENCODER_OPS = ("vlienc", "shenc", "sfenc", "propenc", "ffenc", "bhenc", "bhenc2", "idxenc", "idxgen", "bound", "buenc")
 
 
 NO_RET_OPS = ("vlisize", "chksize", "unpadded", "idxarith", "bound")
@@ -192,7 +192,7 @@ def gen_func(ctx):
     def add(cat, line):
         out.append((cat, line))
 
-    K = 1 if quick else 6
+    K = 3 if quick else 8
     bvals = vli_boundary()
     # --- VLI
     for v in bvals:
@@ -417,6 +417,17 @@ def gen_func(ctx):
         add("idxdec", "idxdec " + hexs(L.index_field(recs)))
     for _ in range(100 * K):
         add("idxarith", "idxarith %d %d %d" % (rng.getrandbits(rng.randrange(1, 50)), rng.getrandbits(rng.randrange(1, 50)), 4 * rng.getrandbits(rng.randrange(1, 50))))
+    # --- the uncompressed-chunk Block encoder, modelled exactly (Check None/CRC32/CRC64; SHA-256 is not modelled)
+    for _ in range(150 * K):
+        n = rng.choice((0, 1, 2, 3, 5, 100, 65535, 65536, 65537, 131072, 131073, rng.randrange(0, 3000), rng.randrange(0, 200000)))
+        if quick and n > 70000 and rng.random() < 0.7:
+            n = rng.randrange(0, 70000)
+        data = rng.randbytes(n) if rng.random() < 0.5 else bytes([rng.getrandbits(8)]) * n
+        chk = rng.choice((0, 1, 1, 4, 4, 2, 3, 5, 15, 16, 99))
+        exact = L.worst_case_block_size(n, L.CHECK_SIZES[chk % 16])
+        bound = 92 + (n + (n + 65535) // 65536 * 3 + 1 + 3) // 4 * 4
+        avail = rng.choice((bound, bound, exact, exact, exact - 1, exact - 4, exact + 1, exact + 3, bound - 1, 0, 1, 4, 8, 12, 20, rng.randrange(0, exact + 8)))
+        add("buenc", "buenc %d %d %s" % (chk, max(0, avail), hexs(data)))
     # --- bound functions: boundary grid up to 2^64-1
     ns = {0, 1, 2, 3, 4, 5, U64, U64 - 1, 1 << 63, (1 << 63) - 1, VLI_MAX, COMPRESSED_SIZE_MAX, COMPRESSED_SIZE_MAX + 1, COMPRESSED_SIZE_MAX - 1}
     for k in range(1, 40):
@@ -516,6 +527,12 @@ def judge_func(line, c_out):
                 return "Index field differs from the format definition"
             if int(o[1]) != len(L.index_field(recs)):
                 return "lzma_index_size() differs from the real size of the Index field"
+        elif op == "buenc" and o[0] == "0":
+            st, summ, _ = L.parse_lone_block(unhex(o[1]), int(t[1]), unhex(t[3]))
+            if st != "ok":
+                return "Block written by lzma_block_uncomp_encode is invalid: " + summ
+            if len(unhex(o[1])) > int(t[2]):
+                return "lzma_block_uncomp_encode wrote more than out_size"
         elif op == "bound":
             n = int(t[1])
             l2, b64, b, s = (int(x) for x in o)
@@ -641,7 +658,7 @@ def chain_matches(info, ids):
 def gen_rel(ctx):
     rng, quick = ctx.rng, ctx.quick()
     cases = []       # dict(line, kind, check, data, ids)
-    n_cases = 130 if quick else 700
+    n_cases = 400 if quick else 2000
     checks = (0, 1, 4, 10)
     for i in range(n_cases):
         api = rng.choice(("easy", "sbe", "sbe", "bbe", "bue", "strm", "strm", "mt", "mt", "alone"))
@@ -670,6 +687,8 @@ def gen_rel(ctx):
             line, ids = "strm %d %d %d %s %s" % (check, rng.getrandbits(30), fm, hx, " ".join(toks)), chain_ids(toks)
         elif api == "mt":
             toks = rand_rel_chain(rng, False)
+            # several encoder instances at once: keep each one's dictionary small
+            toks[-1] = ":".join(toks[-1].split(":")[:2] + [str(rng.choice((4096, 65536, 1 << 20)))] + toks[-1].split(":")[3:])
             bs = rng.choice((0, 4096, 5000, 65536, 65537, 100000, 1 << 20))
             if n > 200000 and bs and bs < 65536:
                 bs = 65536
@@ -850,8 +869,9 @@ def run(ctx):
         if mfail is not None:
             ctx.obligation_broken("model driver xzm_c02 failed to answer every functional op", str(mfail[2])[:2000])
             m_out = None
-    mism = 0
+    mism = func_viol = 0
     rets = {}
+    broken_ops = set()
     for i, ln in enumerate(lines):
         co = c_out[i]
         opn = ln.split(" ", 1)[0]
@@ -869,15 +889,16 @@ def run(ctx):
                 ctx.count("skipped:idxdec-allocation-failure")
                 continue
             mism += 1
-            if mism <= 6:
-                why = judge_func(ln, co) if ln.split()[0] in ENCODER_OPS else None
-                rep = {"op": ln[:5000], "impl": co[:5000], "model": (m_out[i] or "")[:5000]}
-                if why:
-                    rep["kind"] = "an encoder-side function of the implementation produced bytes that violate the format: " + why
-                    rep["how_to_replay"] = "echo '<op>' | .cache/harness-asan/c02"
-                    ctx.violation("func-" + ln.split()[0], rep, True)
-                else:
-                    ctx.obligation_broken("correspondence C02: model and implementation disagree on `%s`" % ln.split()[0], json.dumps(rep))
+            why = judge_func(ln, co) if (opn in ENCODER_OPS and func_viol < 4) else None
+            rep = {"op": ln[:5000], "impl": co[:5000], "model": (m_out[i] or "")[:5000]}
+            if why:
+                func_viol += 1
+                rep["kind"] = "an encoder-side function of the implementation produced bytes that violate the format: " + why
+                rep["how_to_replay"] = "echo '<op>' | .cache/harness-asan/c02"
+                ctx.violation("func-" + opn, rep, True)
+            elif opn not in broken_ops:
+                broken_ops.add(opn)
+                ctx.obligation_broken("correspondence C02: model and implementation disagree on `%s`" % opn, json.dumps(rep))
     for k, v in sorted(rets.items()):
         ctx.count("func-ret:" + k, v)
     ctx.cov["correspondence"] = {"functional_ops": len(lines), "functional_mismatches": mism, "model_ran": m_out is not None}
